@@ -302,10 +302,16 @@ func oracleFR(c *Ctx, id int, body, impl string) {
 		}
 		return
 	}
-	// no worse than the better end — or accepted because it is within the tolerance the caller asked for
+	// no worse than the better end. The property states this clause unconditionally; the code violates it exactly when the
+	// returned value was accepted because it is within the tolerance the caller asked for (only trial points are tested
+	// against the tolerance, never the bracket ends): that case has its own scope = known finding
+	// KF-C18-better-end-within-tolerance (Lean: better_end_counterexample; better_end carries the disjunct). A residual
+	// above the better end that is NOT below the tolerance stays an unqualified failure.
 	if math.Abs(r.delta) > better {
 		if math.Abs(r.delta) < k.tol {
 			c.Stats.Count("obs:accepted-within-tolerance-but-worse-than-better-end")
+			c.OracleFail(id, "FindRoot:better-end-within-tolerance", fmt.Sprintf("|delta|=%g (accepted: below the tolerance %g) is larger than at the better end of the initial bracket (%g)",
+				math.Abs(r.delta), k.tol, better), body)
 		} else {
 			c.OracleFail(id, "FindRoot", fmt.Sprintf("|delta|=%g larger than at the better end of the initial bracket (%g) and not below the tolerance %g",
 				math.Abs(r.delta), better, k.tol), body)
